@@ -201,10 +201,14 @@ impl Sys for ASt {
                         self.dead = true;
                         Ok(())
                     }
-                    Some((c, _)) => {
-                        if self.verbatim {
-                            // length / close framing: the output must equal the consumed bytes (re-run on the same data is
-                            // not possible, so the equality is checked inside a second, cloned call in invariant-free form)
+                    Some((c, class)) => {
+                        if self.verbatim && matches!(self.f, AnyFlow::RecvBody(_)) {
+                            // length / close framing: every consumed byte is delivered (produced == consumed);
+                            // together with the in-order-copy check this makes the output equal to the input
+                            let produced_some = class.ends_with(":true");
+                            if (c > 0) != produced_some {
+                                return Err((format!("C12:{}:consumed-not-delivered", self.cfg.name), format!("length/close framing: consumed {} bytes but produced {}", c, if produced_some { "some" } else { "none" })));
+                            }
                         }
                         self.window.drain(..c);
                         Ok(())
